@@ -137,6 +137,25 @@ func EventType(event any) string {
 	return reflect.TypeOf(event).String()
 }
 
+// typeNameOf returns the name EventType reports for events of type T, so that
+// APIs selecting stored events by Go type agree with the name they were
+// persisted under (including TypeNamer implementations).
+func typeNameOf[T any]() string {
+	t := reflect.TypeOf((*T)(nil)).Elem()
+	switch t.Kind() {
+	case reflect.Pointer:
+		// Use a non-nil pointer so that EventTypeName can be called safely.
+		if namer, ok := reflect.New(t.Elem()).Interface().(TypeNamer); ok {
+			return namer.EventTypeName()
+		}
+		return t.String()
+	case reflect.Interface:
+		return t.String()
+	}
+	var zero T
+	return EventType(zero)
+}
+
 // Observability is an optional interface for metrics and tracing.
 // Implementations can track event publishing, handler execution, and errors.
 //
